@@ -25,8 +25,6 @@ T = TypeVar('T')
 class ThreadLocal(Generic[T]):
     """This type offers the ability to store a value based on the thread that accessed the value."""
 
-    __store = {}
-
     def __init__(self, default_provider: Callable[[], T] = lambda: None):
         """
         Create a new ThreadLocal value.
@@ -34,6 +32,13 @@ class ThreadLocal(Generic[T]):
         :param default_provider: a provider that will produce a default value
         """
         self.__default_provider = default_provider
+        # The values live in a threading.local of this object: they belong to this object (a dictionary on the class,
+        # keyed by the ident of the thread, is shared by every ThreadLocal in the process) and they go with the thread
+        # (what a thread leaves behind is not handed to the next thread that is given its ident). It is not looked up
+        # through threading.current_thread(): for a thread that is ending (its last trace events come after it left
+        # the list of active threads) that call registers a dummy thread, which the application then finds in
+        # threading.enumerate() for ever.
+        self.__local = threading.local()
 
     def get(self) -> T:
         """
@@ -41,14 +46,10 @@ class ThreadLocal(Generic[T]):
 
         :return: the stored value, or the value from the default_provider
         """
-        # the ident, not threading.current_thread(): for a thread that is ending (its last trace events come after it
-        # left the list of active threads) that call registers a dummy thread, which the application then finds in
-        # threading.enumerate() for ever
-        ident = threading.get_ident()
-        get = self.__store.get(ident, None)
+        get = getattr(self.__local, 'value', None)
         if get is None:
             get = self.__default_provider()
-            self.__store[ident] = get
+            self.__local.value = get
         return get
 
     def set(self, val: T):
@@ -57,14 +58,12 @@ class ThreadLocal(Generic[T]):
 
         :param val: the value to store
         """
-        ident = threading.get_ident()
-        self.__store[ident] = val
+        self.__local.value = val
 
     def clear(self):
         """Remove the value for this thread."""
-        ident = threading.get_ident()
-        if ident in self.__store:
-            del self.__store[ident]
+        if hasattr(self.__local, 'value'):
+            del self.__local.value
 
     @property
     def is_set(self):
@@ -73,8 +72,7 @@ class ThreadLocal(Generic[T]):
 
         :return: True if there is a value for this thread
         """
-        ident = threading.get_ident()
-        return ident in self.__store
+        return hasattr(self.__local, 'value')
 
     @property
     def value(self):
